@@ -231,11 +231,8 @@ Print Assumptions C18_size.
 (** refinement / containment: section (10, 4); the writer accepts 1 of 3 bytes with its own
     error, then everything; Write 3 bytes (short count + error, cursor 1), Write 5 bytes (3 land
     at 11, truncated), Write again (refused at the end), seek back, WriteAt crossing the end,
-    Seek past the end, Size. *)
-Definition ex_calls : list call :=
-  [CWrite [1;2;3]; CWrite [4;5;6;7;8]; CWrite [9]; CSeek (-2) 2; CWriteAt [10;11;12] 2;
-   CSeek 7 1; CSize].
-Definition ex_script : list resp := [(1, 2)].
+    Seek past the end, Size
+    (the sequence [ex_calls] and the script [ex_script] are defined at the end of Proofs/SectionWriterCalls.v) *)
 
 Example C18_refinement_nonvacuous :
   (0 <= 10 /\ 0 <= 4 /\ 10 + 4 <= 2^63 - 1) /\
